@@ -58,7 +58,9 @@ class Namespace(typing.Generic[T]):
             if not self.symt.lookup(name).is_global():
                 return False
         except KeyError:
-            return False
+            # only used in a comprehension with its own symbol table (before 3.12):
+            # it would be free here if it was not global there
+            pass
         return self._is_local_of_enclosing_function(name)
 
     def _is_local_of_enclosing_function(self, name: str) -> bool:
